@@ -27,6 +27,7 @@ import (
 	"net/http"
 	"net/url"
 	"strconv"
+	"time"
 
 	"github.com/saucelabs/forwarder/dialvia"
 	"github.com/saucelabs/forwarder/internal/martian/log"
@@ -228,9 +229,40 @@ func (e *connectError) ConnectResponse() *http.Response {
 	return e.res
 }
 
-func OnProxyConnectResponse(_ context.Context, _ *url.URL, req *http.Request, connectRes *http.Response) error {
+func OnProxyConnectResponse(ctx context.Context, u *url.URL, req *http.Request, connectRes *http.Response) error {
+	return onProxyConnectResponse(ctx, u, req, connectRes, 0)
+}
+
+// readAllWithin reads r to its end, but gives up after d: an upstream proxy may announce
+// more body than it sends and keep its connection open.
+// The transport closes the connection once the rejection is reported, which ends the read.
+func readAllWithin(r io.Reader, d time.Duration) ([]byte, error) {
+	type result struct {
+		b   []byte
+		err error
+	}
+	ch := make(chan result, 1)
+	go func() {
+		b, err := io.ReadAll(r)
+		ch <- result{b, err}
+	}()
+
+	t := time.NewTimer(d)
+	defer t.Stop()
+	select {
+	case res := <-ch:
+		return res.b, res.err
+	case <-t.C:
+		return nil, errors.New("timed out")
+	}
+}
+
+func onProxyConnectResponse(_ context.Context, _ *url.URL, req *http.Request, connectRes *http.Response, timeout time.Duration) error {
 	if connectRes.StatusCode/100 == 2 {
 		return nil
+	}
+	if timeout <= 0 {
+		timeout = time.Minute // http.Transport's constant for the CONNECT exchange.
 	}
 
 	var (
@@ -238,7 +270,7 @@ func OnProxyConnectResponse(_ context.Context, _ *url.URL, req *http.Request, co
 		cl   int64
 	)
 	if connectRes.ContentLength > 0 {
-		b, err := io.ReadAll(connectRes.Body)
+		b, err := readAllWithin(connectRes.Body, timeout)
 		if err != nil {
 			log.Error(req.Context(), "failed to read CONNECT response body", "error", err)
 		} else {
@@ -250,6 +282,8 @@ func OnProxyConnectResponse(_ context.Context, _ *url.URL, req *http.Request, co
 	// Body cannot be read from the CONNECT response due to use of closed network connection.
 	res := proxyutil.NewResponse(connectRes.StatusCode, body, req) //nolint:bodyclose // closing body has no effect
 	res.Header = connectRes.Header.Clone()
+	// The length announced by the upstream proxy is not the length of what is relayed if its body could not be read.
+	res.Header.Del("Content-Length")
 	res.ContentLength = cl
 	return &connectError{res}
 }
